@@ -114,6 +114,19 @@ var opTemplates = []opT{
 	{Name: "rec.Delete_d", Body: `s.rec.Delete(#d)`, RecWrite: 1, Group: "rec"},
 	{Name: "Pack(rec)", Body: `log.Add('v', Unpack(Pack(s.rec)))`, Group: "rec"},
 	{Name: "rec.Members", Body: `for x in s.rec.Members() { log.Add('k', x) }`, Group: "rec"},
+	// shared record that comes from the database: row backed, lazily unpacked; its Header
+	// caches field lookups (also of missing names), so plain reads write to the Header
+	{Name: "dbrec.f2", Body: `log.Add('v', s.dbrec.f2)`, Group: "dbrec"},
+	{Name: "dbrec fields", Body: `for f in #(f0, f1, f2, f3, f4, f5) { x = s.dbrec[f] }; log.Add('v', x)`, Group: "dbrec"},
+	{Name: "dbrec[missing]*20", Body: `for (i = 0; i < 20; ++i) x = s.dbrec[v $ '_' $ i]; log.Add('v', x)`, Group: "dbrec"},
+	{Name: "dbrec.Copy missing*20", Body: `c = s.dbrec.Copy(); for (i = 0; i < 20; ++i) x = c[v $ '_' $ i]; log.Add('v', x); log.Add('v', c.f3)`, Group: "dbrec"},
+	{Name: "dbrec.Copy fields", Body: `c = s.dbrec.Copy(); for f in #(f5, f4, f3, f2, f1, f0) { x = c[f] }; log.Add('v', x); c.f0 = v; log.Add('v', c.f0)`, Group: "dbrec"},
+	{Name: "dbrec.Copy*8", Body: `for (i = 0; i < 8; ++i) { c = s.dbrec.Copy(); x = c[v $ i] }; log.Add('v', c.f4)`, Group: "dbrec"},
+	{Name: "dbrec.f1=", Body: `s.dbrec.f1 = v`, Group: "dbrec"},
+	{Name: "dbrec.new=", Body: `s.dbrec.d = v`, Group: "dbrec"},
+	{Name: "for x in dbrec", Body: `for x in s.dbrec { log.Add('v', x) }`, Group: "dbrec"},
+	{Name: "dbrec.Members", Body: `for x in s.dbrec.Members() { log.Add('k', x) }`, Group: "dbrec"},
+	{Name: "Pack(dbrec)", Body: `log.Add('v', Unpack(Pack(s.dbrec)))`, Group: "dbrec"},
 	// closures with shared slots
 	{Name: "inc()", Body: `(s.inc)()`, Inc: 1, Group: "closure"},
 	{Name: "inc()*20", Body: `for (i = 0; i < 20; ++i) (s.inc)()`, Inc: 20, Group: "closure"},
@@ -253,6 +266,7 @@ func runC43(c c43Case) (string, c43Stats) {
 	if msg := catchGo(func() { world = main.Call(compile.Constant(c43Setup(c))) }); msg != "" {
 		return "harness: setup failed: " + msg, st
 	}
+	world.(*core.SuObject).Set(core.SuStr("dbrec"), newDbRec())
 	// as builtin Thread does with its argument object
 	world.SetConcurrent()
 
@@ -260,6 +274,9 @@ func runC43(c c43Case) (string, c43Stats) {
 		"i_v": true, "i_cx": true, "i_l0": true, "i_l1": true, "i_cr": true, "i_m": true}
 	for i := 0; i < c.NInit; i++ {
 		domain[fmt.Sprintf("i%d", i)] = true
+	}
+	for i := range dbRecFields {
+		domain[fmt.Sprintf("i_d%d", i)] = true
 	}
 	attemptAdd, attemptMayAdd, attemptDel, incs, recWrites, accAdds := 0, 0, 0, 0, 0, 0
 	uniqueUsed := false
@@ -501,6 +518,20 @@ func safeStr(v core.Value) (s string) {
 	return s
 }
 
+var dbRecFields = []string{"f0", "f1", "f2", "f3", "f4", "f5"}
+
+// newDbRec returns a record as a query returns it: backed by a database row,
+// not yet unpacked (values f0..f5 = "i_d0".."i_d5").
+func newDbRec() *core.SuRecord {
+	b := core.RecordBuilder{}
+	for i := range dbRecFields {
+		b.Add(core.SuStr(fmt.Sprintf("i_d%d", i)))
+	}
+	row := core.Row{core.DbRec{Record: b.Build()}}
+	hdr := core.NewHeader([][]string{dbRecFields}, dbRecFields)
+	return core.SuRecordFromRow(row, hdr, "", nil)
+}
+
 func boolInt(b bool) int {
 	if b {
 		return 1
@@ -508,7 +539,8 @@ func boolInt(b bool) int {
 	return 0
 }
 
-var c43Keys = map[string]bool{"a": true, "b": true, "c": true, "d": true, "r": true, "sub": true}
+var c43Keys = map[string]bool{"a": true, "b": true, "c": true, "d": true, "r": true, "sub": true,
+	"f0": true, "f1": true, "f2": true, "f3": true, "f4": true, "f5": true}
 
 func checkKey(k core.Value) string {
 	if i, ok := k.IfInt(); ok {
@@ -570,7 +602,7 @@ func genC43(t *rapid.T, excluded map[string]bool) c43Case {
 	ng := 2 + gen.Uniform(t, "ng", 7)
 	// focus: most cases concentrate on one or two groups so that several goroutines hit the same value
 	var weights []int
-	focus := gen.Pick(t, "focus", []string{"ob", "ob", "ob", "rec", "closure", "class", "all"})
+	focus := gen.Pick(t, "focus", []string{"ob", "ob", "ob", "rec", "dbrec", "closure", "class", "all"})
 	var pool []*opT
 	for i := range opTemplates {
 		o := &opTemplates[i]
@@ -603,7 +635,7 @@ func genC43(t *rapid.T, excluded map[string]bool) c43Case {
 
 // TestC43: shared values are safe under concurrent use (built with -race).
 func TestC43(t *testing.T) {
-	rec := ev.New("C43", "rapid-generated cases: a shared world (object with list, named members, a nested object, optional default value; record with attached rule and optional observer; closures sharing a counter, a variable and an object; class with constant members and a shared instance) made concurrent as builtin Thread does, then 2-8 goroutines with own core.Thread run generated scripts (2-26 operations from 89 Suneido operation templates, focus on one value group per case, generated yields). Non-trivial: >= 2 goroutines writing the shared object and >= 1 iterating it. Distinct = by scripts. Sub-property enter: one of 31 ways a value enters an already shared container (Add with/without at: inside/at the end/beyond the list, several values, ob[i]=, named put, CompareAndSet, Delete/PopFirst/Erase + re-Add, Set_default, Bind, record Add/put/rule result, instance member, closure shared object and variable) x a fresh non-concurrent object/record/instance/closure with a mutable child; (a) Concurrent? of the value reached through the container and of its child must be true, (b) 2-6 goroutines x 5-400 mutations through the container must all be present at the end; non-trivial: >= 40 mutations per thread.")
+	rec := ev.New("C43", "rapid-generated cases: a shared world (object with list, named members, a nested object, optional default value; record with attached rule and optional observer; closures sharing a counter, a variable and an object; class with constant members and a shared instance; a row-backed, lazily unpacked database record whose field lookups, also of missing names, go through its Header cache, read and copied while shared) made concurrent as builtin Thread does, then 2-8 goroutines with own core.Thread run generated scripts (2-26 operations from 100 Suneido operation templates, focus on one value group per case, generated yields). Non-trivial: >= 2 goroutines writing the shared object and >= 1 iterating it. Distinct = by scripts. Sub-property enter: one of 31 ways a value enters an already shared container (Add with/without at: inside/at the end/beyond the list, several values, ob[i]=, named put, CompareAndSet, Delete/PopFirst/Erase + re-Add, Set_default, Bind, record Add/put/rule result, instance member, closure shared object and variable) x a fresh non-concurrent object/record/instance/closure with a mutable child; (a) Concurrent? of the value reached through the container and of its child must be true, (b) 2-6 goroutines x 5-400 mutations through the container must all be present at the end; non-trivial: >= 40 mutations per thread.")
 	rec.Assumptions = []string{
 		"built and run with the Go race detector (driver: race=true, GORACE=halt_on_error=1): a DATA RACE report ends the process and the journalled case is the replay artefact",
 		"interleavings are whatever the Go scheduler produces with generated yields; a race must actually occur in a run to be reported",
@@ -687,6 +719,21 @@ func TestC43(t *testing.T) {
 		rec.Label(fmt.Sprintf("goroutines_%d", len(c.Scripts)))
 		rec.LabelIf(st.obWriters >= 2, "ob_two_or_more_writers")
 		rec.LabelIf(st.obIters >= 1, "ob_iterated")
+		origReaders, copyReaders := 0, 0
+		for _, sc := range c.Scripts {
+			o, cp := false, false
+			for _, step := range sc {
+				if strings.HasPrefix(step.Op, "dbrec.Copy") {
+					cp = true
+				} else if strings.Contains(step.Op, "dbrec") {
+					o = true
+				}
+			}
+			origReaders += boolInt(o)
+			copyReaders += boolInt(cp)
+		}
+		rec.LabelIf(origReaders >= 1 && copyReaders >= 1, "dbrec_used_through_original_and_private_copies")
+		rec.LabelIf(origReaders+copyReaders >= 1, "dbrec_used")
 		keys := make([]string, 0, len(st.errSamples))
 		for k := range st.errSamples {
 			keys = append(keys, k)
